@@ -533,6 +533,11 @@ pub fn is_concrete_replay() -> bool {
 /// Adds an assumption to the path condition (before the code it constrains).
 /// If the path condition becomes unsatisfiable the run is abandoned as vacuous.
 pub fn assume(f: &F) {
+    if let F::Distinct(ids) = f {
+        if ids.len() < 2 {
+            return; // trivially true (and cvc5 rejects a unary distinct)
+        }
+    }
     with(|e| {
         if e.mode != Mode::Symbolic {
             if !e.eval_f(f) {
